@@ -64,6 +64,7 @@ type gboard struct {
 	Marker  string
 	Objs    []*gobj
 	Inherit []string // markers expected in the board's file besides its own
+	ImpFile string   // non-empty: the board's body lives in this file and is imported (`name: @file`)
 }
 
 type gobj struct {
@@ -171,6 +172,22 @@ func genTree(r *rand.Rand, c *hl.Ctx) *gboard {
 			}
 		}
 	}
+	// some layer boards are written in a file of their own and imported
+	for _, b := range all {
+		if b.Kind != "layers" || r.Intn(4) != 0 {
+			continue
+		}
+		anc := false
+		for x := b.Parent; x != nil; x = x.Parent {
+			if x.ImpFile != "" {
+				anc = true
+			}
+		}
+		if !anc {
+			b.ImpFile = "imp_" + b.Marker
+			c.Count("imported-board")
+		}
+	}
 	// link objects (root and layers only)
 	oid := 0
 	for _, b := range all {
@@ -255,7 +272,29 @@ func genLink(r *rand.Rand, c *hl.Ctx, from, to *gboard, all []*gboard) string {
 	}
 }
 
-func (b *gboard) d2(ind string, sb *strings.Builder) {
+// impRoot is the nearest imported board at or above b (nil when b is written in in.d2)
+func (b *gboard) impRoot() *gboard {
+	for x := b; x != nil; x = x.Parent {
+		if x.ImpFile != "" {
+			return x
+		}
+	}
+	return nil
+}
+
+// fileIDA is the path of b inside the file it is written in (root = the file's own root)
+func (b *gboard) fileIDA() []seg {
+	ir := b.impRoot()
+	if ir == nil {
+		return b.ida()
+	}
+	if b == ir {
+		return []seg{{"root", true}}
+	}
+	return append(append([]seg{}, b.Parent.fileIDA()...), seg{b.Kind, true}, seg{b.Name, keyOf(b.Name) == b.Name})
+}
+
+func (b *gboard) d2(ind string, sb *strings.Builder, files map[string]string) {
 	fmt.Fprintf(sb, "%s%s\n", ind, b.Marker)
 	for _, o := range b.Objs {
 		val := o.Raw
@@ -272,8 +311,15 @@ func (b *gboard) d2(ind string, sb *strings.Builder) {
 		}
 		fmt.Fprintf(sb, "%s%s: {\n", ind, k)
 		for _, kid := range b.Kids[k] {
+			if kid.ImpFile != "" {
+				var fb strings.Builder
+				kid.d2("", &fb, files)
+				files[kid.ImpFile+".d2"] = fb.String()
+				fmt.Fprintf(sb, "%s  %s: @%s\n", ind, keyOf(kid.Name), kid.ImpFile)
+				continue
+			}
 			fmt.Fprintf(sb, "%s  %s: {\n", ind, keyOf(kid.Name))
-			kid.d2(ind+"    ", sb)
+			kid.d2(ind+"    ", sb, files)
 			fmt.Fprintf(sb, "%s  }\n", ind)
 		}
 		fmt.Fprintf(sb, "%s}\n", ind)
@@ -340,7 +386,16 @@ func boardsInfo(root *gboard) []map[string]any {
 			for _, p := range strings.Split(o.Path, ".") {
 				scope = append(scope, seg{p, true})
 			}
-			objs = append(objs, map[string]any{"path": o.Path, "raw": o.Raw, "rawSegs": segsOf(o.Raw), "remote": isRemote(o.Raw), "scope": scope})
+			fscope := append([]seg{}, b.fileIDA()...)
+			for _, p := range strings.Split(o.Path, ".") {
+				fscope = append(fscope, seg{p, true})
+			}
+			var imp any
+			if ir := b.impRoot(); ir != nil {
+				imp = ir.ida()
+			}
+			objs = append(objs, map[string]any{"path": o.Path, "raw": o.Raw, "rawSegs": segsOf(o.Raw), "remote": isRemote(o.Raw), "scope": scope,
+				"fileScope": fscope, "imp": imp})
 		}
 		inh := b.Inherit
 		if inh == nil {
@@ -351,24 +406,28 @@ func boardsInfo(root *gboard) []map[string]any {
 	return out
 }
 
-func observe(c *hl.Ctx, idx int, src string, boards []map[string]any) map[string]any {
-	in := map[string]any{"src": src, "boards": boards, "out": "/w/out/o.svg"}
+func observe(c *hl.Ctx, idx int, src string, files map[string]string, boards []map[string]any) map[string]any {
+	in := map[string]any{"src": src, "files": files, "boards": boards, "out": "/w/out/o.svg"}
 	out := map[string]any{}
 	res := map[string]any{"k": "links", "in": in, "out": out}
-	g, _, err := d2compiler.Compile("in.d2", strings.NewReader(src), nil)
-	if err != nil {
-		out["compileErr"] = err.Error()
-		res["triv"] = true
-		return res
-	}
-	out["tree"] = graphTree(g, []string{"root"})
 	root := filepath.Join(c.Work, "sb35", fmt.Sprintf("t%d", idx))
 	os.RemoveAll(root)
 	pwd := root + "/w"
 	os.MkdirAll(pwd, 0o755)
 	os.WriteFile(pwd+"/in.d2", []byte(src), 0o644)
+	for n, body := range files {
+		os.WriteFile(pwd+"/"+n, []byte(body), 0o644)
+	}
+	g, _, err := d2compiler.Compile("in.d2", strings.NewReader(src), &d2compiler.CompileOptions{FS: os.DirFS(pwd)})
+	if err != nil {
+		out["compileErr"] = err.Error()
+		res["triv"] = true
+		os.RemoveAll(root)
+		return res
+	}
+	out["tree"] = graphTree(g, []string{"root"})
 	out["cliErr"] = runCLI(pwd, "in.d2", "out/o.svg")
-	files := []any{}
+	outFiles := []any{}
 	filepath.WalkDir(pwd+"/out", func(p string, d fs.DirEntry, err error) error {
 		if err != nil || d.IsDir() {
 			return nil
@@ -394,10 +453,10 @@ func observe(c *hl.Ctx, idx int, src string, boards []map[string]any) map[string
 		if ms == nil {
 			ms = []string{}
 		}
-		files = append(files, map[string]any{"path": "/w" + strings.TrimPrefix(p, pwd), "markers": ms, "hrefs": hrefs})
+		outFiles = append(outFiles, map[string]any{"path": "/w" + strings.TrimPrefix(p, pwd), "markers": ms, "hrefs": hrefs})
 		return nil
 	})
-	out["files"] = files
+	out["files"] = outFiles
 	os.RemoveAll(root)
 	return res
 }
@@ -438,7 +497,13 @@ func run(c *hl.Ctx) error {
 		for _, b := range in["boards"].([]any) {
 			boards = append(boards, b.(map[string]any))
 		}
-		res := observe(c, 0, in["src"].(string), boards)
+		files := map[string]string{}
+		if fm, ok := in["files"].(map[string]any); ok {
+			for k, v := range fm {
+				files[k] = v.(string)
+			}
+		}
+		res := observe(c, 0, in["src"].(string), files, boards)
 		if f, ok := in["focus"]; ok {
 			res["in"].(map[string]any)["focus"] = f
 			c.Emit(res)
@@ -448,17 +513,19 @@ func run(c *hl.Ctx) error {
 		return nil
 	}
 	r := c.Rand()
-	n := c.Pick(40, 2500)
+	n := c.Pick(40, 600)
 	type job struct {
 		src    string
+		files  map[string]string
 		boards []map[string]any
 	}
 	var jobs []job
 	for i := 0; i < n; i++ {
 		t := genTree(r, c)
 		var sb strings.Builder
-		t.d2("", &sb)
-		jobs = append(jobs, job{sb.String(), boardsInfo(t)})
+		files := map[string]string{}
+		t.d2("", &sb, files)
+		jobs = append(jobs, job{sb.String(), files, boardsInfo(t)})
 		var all []*gboard
 		t.all(&all)
 		c.Count(fmt.Sprintf("boards=%d", len(all)))
@@ -472,7 +539,7 @@ func run(c *hl.Ctx) error {
 		go func(i int, j job) {
 			defer wg.Done()
 			defer func() { <-sem }()
-			results[i] = observe(c, i, j.src, j.boards)
+			results[i] = observe(c, i, j.src, j.files, j.boards)
 		}(i, j)
 	}
 	wg.Wait()
